@@ -70,14 +70,14 @@ type PropSpec struct {
 	ID          string
 	Level       string // evidence level
 	Technique   string
-	Rule        string   // how cases are enumerated, what is non-trivial
-	Assumptions []string // trusted base
-	Run         func(w *W)           // worker side, Kind "shard": enumerates cases through w.Case
+	Rule        string                                   // how cases are enumerated, what is non-trivial
+	Assumptions []string                                 // trusted base
+	Run         func(w *W)                               // worker side, Kind "shard": enumerates cases through w.Case
 	Exec        func(w *W, args json.RawMessage) CaseOut // worker side, Kind "exec"
-	Coord       func(c *Coord)       // optional custom coordinator (default: shard coordinator over Run)
-	CaseTimeout time.Duration        // real-time watchdog per case (default 60 s)
-	Workers     int                  // default: 16
-	OneShot     bool                 // one process per case (cases leave through os.Exit)
+	Coord       func(c *Coord)                           // optional custom coordinator (default: shard coordinator over Run)
+	CaseTimeout time.Duration                            // real-time watchdog per case (default 60 s)
+	Workers     int                                      // default: 16
+	OneShot     bool                                     // one process per case (cases leave through os.Exit)
 }
 
 var props = map[string]*PropSpec{}
@@ -96,6 +96,12 @@ type W struct {
 }
 
 func (w *W) Thorough() bool { return w.Job.Tier == "thorough" }
+
+// Beat tells the coordinator's watchdog that the current case is making progress.
+func (w *W) Beat() {
+	fmt.Fprintf(w.proto, "H\n")
+	w.proto.Flush()
+}
 
 // Case runs f as case number idx of the enumeration if it belongs to this worker's shard.
 // A panic in the calling goroutine is reported as a violation of the case (the worker survives);
@@ -280,7 +286,7 @@ func startWorker(extraEnv ...string) (*workerProc, error) {
 	cmd.Stdout = logf
 	cmd.Stderr = logf
 	cmd.ExtraFiles = []*os.File{pw}
-	cmd.SysProcAttr = &syscall.SysProcAttr{Setpgid: true}
+	cmd.SysProcAttr = &syscall.SysProcAttr{Setpgid: true, Pdeathsig: syscall.SIGKILL}
 	stdin, err := cmd.StdinPipe()
 	if err != nil {
 		return nil, err
@@ -436,11 +442,11 @@ func uniq(s []string) []string {
 // ---- aggregation -------------------------------------------------------------------------------
 
 type foundViolation struct {
-	Key    string `json:"key"`
-	Msg    string `json:"msg"`
-	CaseID string `json:"case_id"`
+	Key    string          `json:"key"`
+	Msg    string          `json:"msg"`
+	CaseID string          `json:"case_id"`
 	Args   json.RawMessage `json:"args,omitempty"`
-	Count  int    `json:"count"`
+	Count  int             `json:"count"`
 }
 
 // Coord is the coordinator context of one check run.
@@ -464,6 +470,14 @@ type Coord struct {
 	notes       []string
 	extraCov    map[string]any
 	infraErrors []string
+	findings    []finding
+	stopFlag    bool // set when a violation that is not a known finding was recorded: fail fast
+}
+
+func (c *Coord) stopped() bool {
+	c.mu.Lock()
+	defer c.mu.Unlock()
+	return c.stopFlag
 }
 
 func (c *Coord) Thorough() bool { return c.Tier == "thorough" }
@@ -501,6 +515,9 @@ func (c *Coord) record(caseID string, args json.RawMessage, out CaseOut) {
 	}
 	for _, v := range out.Viol {
 		fv := c.viol[v.Key]
+		if knownFinding(c.findings, c.Spec.ID, v.Key) == nil && os.Getenv("VERIF_NOFAILFAST") == "" {
+			c.stopFlag = true
+		}
 		if fv == nil {
 			fv = &foundViolation{Key: v.Key, Msg: v.Msg, CaseID: caseID, Args: args}
 			c.viol[v.Key] = fv
@@ -562,6 +579,7 @@ func (c *Coord) runShard(job Job) {
 		curIdx, curID := -1, ""
 		lastIdx := job.SkipTo - 1
 		done := false
+		stoppedEarly := false
 		timer := time.NewTimer(c.caseTimeout() + 60*time.Second)
 	loop:
 		for {
@@ -574,6 +592,10 @@ func (c *Coord) runShard(job Job) {
 					}
 				}
 				timer.Reset(c.caseTimeout())
+				if c.stopped() && job.Only == "" {
+					stoppedEarly = true
+					break loop
+				}
 				switch m.kind {
 				case 'B':
 					curIdx = m.idx
@@ -619,6 +641,12 @@ func (c *Coord) runShard(job Job) {
 		timer.Stop()
 		wp.kill(false)
 		wp.cleanup()
+		if stoppedEarly {
+			c.mu.Lock()
+			c.exhaustive = false
+			c.mu.Unlock()
+			return
+		}
 		if done || job.Only != "" {
 			return
 		}
@@ -851,6 +879,7 @@ func TestCoordinator(t *testing.T) {
 	}
 	seed, _ := strconv.ParseInt(os.Getenv("VERIF_SEED"), 10, 64)
 	c := &Coord{Spec: spec, Tier: tier, Seed: seed, start: time.Now(), outcomes: map[string]int{}, counters: map[string]int{}, viol: map[string]*foundViolation{}, exhaustive: true}
+	c.findings = loadFindings()
 
 	if rp := os.Getenv("VERIF_REPLAY"); rp != "" {
 		b, err := os.ReadFile(rp)
@@ -881,7 +910,7 @@ func TestCoordinator(t *testing.T) {
 	}
 
 	// classify violations
-	findings := loadFindings()
+	findings := c.findings
 	exit := 0
 	var unstable []string
 	var knownHit, reported []string
@@ -932,25 +961,33 @@ func TestCoordinator(t *testing.T) {
 
 	// evidence
 	cov := map[string]any{
-		"evaluations":         c.evaluations,
-		"distinct_nontrivial": c.nontrivial,
-		"rule":                spec.Rule,
-		"samples":             c.samples,
-		"exhaustive":          c.exhaustive,
-		"distinct_outcomes":   len(c.outcomes),
-		"outcomes":            c.outcomes,
-		"counters":            c.counters,
-		"known_findings_hit":  knownHit,
-		"violations_reported": reported,
-		"unstable":            unstable,
-		"harness_notes":       c.notes,
-		"harness_errors":      len(c.infraErrors),
-		"workers":             spec.Workers,
+		"evaluations":                c.evaluations,
+		"distinct_nontrivial":        c.nontrivial,
+		"rule":                       spec.Rule,
+		"samples":                    c.samples,
+		"exhaustive":                 c.exhaustive,
+		"distinct_outcomes":          len(c.outcomes),
+		"outcomes":                   c.outcomes,
+		"counters":                   c.counters,
+		"known_findings_hit":         knownHit,
+		"violations_reported":        reported,
+		"unstable":                   unstable,
+		"harness_notes":              c.notes,
+		"harness_errors":             len(c.infraErrors),
+		"workers":                    spec.Workers,
+		"stopped_at_first_violation": c.stopFlag,
+	}
+	if c.states == 0 && c.counters["states"] > 0 {
+		c.states = c.counters["states"]
+		c.transitions = c.counters["transitions"]
 	}
 	if c.states > 0 {
 		cov["states"] = c.states
 		cov["transitions"] = c.transitions
 		cov["traces_validated_against_impl"] = c.evaluations
+		if c.counters["executions"] > 0 {
+			cov["traces_validated_against_impl"] = c.counters["executions"]
+		}
 	}
 	for k, v := range c.extraCov {
 		cov[k] = v
